@@ -441,7 +441,15 @@ func (ego *list) Equals(another List) bool {
 }
 
 func (ego *list) Concat(another List) List {
-	other := another.getVal().(*list).val
+	var other []field
+	if plain, ok := another.getVal().(*list); ok {
+		other = plain.val
+	} else {
+		// Derived structure (the list is embedded in it), its elements are reachable through the interface only
+		for _, item := range another.Slice() {
+			other = append(other, parseVal(item))
+		}
+	}
 	val := make([]field, 0, len(ego.val)+len(other))
 	newList := &list{val: append(append(val, ego.val...), other...)}
 	newList.Init(newList)
